@@ -2,9 +2,9 @@
 # tools/benign_eval.sh <ID>... : run the quick check of <ID> against each behaviour-preserving patch /tmp/ben-out/<ID>/b?.diff.
 # The patches were written against commit $BASE of /repo (default b0d2f60): a scratch export of that commit is patched and the
 # check runs with VERIF_REPO pointing at it. A non-zero exit is a FALSE ALARM to investigate. Logs: /tmp/ben-out/<ID>/b?.log
-BASE="${BASE:-b0d2f60}"
+BASE="${BASE:-b0d2f60}"; OUT="${OUT:-/tmp/ben-out}"
 for c in "$@"; do
-  for p in /tmp/ben-out/$c/b1.diff /tmp/ben-out/$c/b2.diff /tmp/ben-out/$c/b3.diff; do
+  for p in $OUT/$c/b1.diff $OUT/$c/b2.diff $OUT/$c/b3.diff; do
     [ -f "$p" ] || { echo "$c $(basename $p): missing"; continue; }
     (
       D=$(mktemp -d /tmp/benmut-XXXXXX); trap 'rm -rf "$D"' EXIT
